@@ -67,7 +67,13 @@ ObsFinal ==
 \* a step the concretiser could not render under the current embedding (see world.Coincides)
 ObsSkip == Ev.e = "skip" /\ UNCHANGED <<stored, last, ctr, hist, memo>> /\ i' = i + 1
 
-TraceNext == i <= Len(Trace) /\ (Reset \/ ObsUpdate \/ ObsGet \/ ObsGetLogs \/ ObsSkip \/ ObsOdd \/ ObsFinal)
+\* the harness replaced the stored bytes of one log by the same checkpoint as an earlier incarnation of the witness would have left it
+\* (other cosignature time, fewer witness lines): same tree, possibly another number of signature lines
+ObsRestore == /\ Ev.e = "restore"
+              /\ stored' = [l \in Logs |-> Ev.stored[l]]
+              /\ UNCHANGED <<last, ctr, hist, memo>> /\ i' = i + 1
+
+TraceNext == i <= Len(Trace) /\ (Reset \/ ObsUpdate \/ ObsGet \/ ObsGetLogs \/ ObsSkip \/ ObsRestore \/ ObsOdd \/ ObsFinal)
 TraceSpec == TraceInit /\ [][TraceNext]_tvars
 
 -----------------------------------------------------------------------------
@@ -176,6 +182,10 @@ Monitor ==
       [] Ev.e = "final"   -> MonFinal
       [] Ev.e = "get"     -> MonGet
       [] Ev.e = "getlogs" -> MonGetLogs
+      \* (a check of the harness itself: the replacement keeps tree and extension, and touches no other log)
+      [] Ev.e = "restore" -> Check("ORACLE", "RestoreKeepsTheCheckpoint",
+                                   \A l \in Logs : (stored[l] = None) = (Ev.stored[l] = None)
+                                                    /\ (stored[l] # None => SameTree(stored[l], Ev.stored[l]) /\ stored[l].ext = Ev.stored[l].ext))
       [] OTHER            -> TRUE
 
 Done == TLCGet("stats").diameter - 1 = Len(Trace)
